@@ -113,6 +113,9 @@ static void stage_shapes(Run &R) {
         Bytes a; for (int i = 0; i < before; i++) { a += "abcd"; if (i + 1 < before) a += ':'; } a += "::"; for (int i = 0; i < after; i++) { a += "ef01:"; } a += q;
         if (!go("[IPv6:" + a + "]")) return;
     }
+    // every byte value at each of the five positions of the tag (only the case variants of "IPv6:" are a tag)
+    for (int pos = 0; pos < 5; pos++) for (int x = 1; x < 256; x++) { if (x == '@') continue; Bytes tag = "IPv6:"; tag[pos] = (char) x;
+        for (const char *a : {"2001:db8::1", "1:2:3:4:5:6:7:8", "::ffff:1.2.3.4"}) if (!go("[" + tag + a + "]")) return; }
     // octets far beyond the range: values that wrap to <= 255 modulo 2^8, 2^16, 2^31, 2^32, 2^64 when accumulated in a
     // narrow or overflowing integer, long zero-padded and long all-nine runs
     static const char *BIG[] = {"256", "257", "511", "512", "65536", "65537", "65791", "2147483648", "2147483649", "4294967295", "4294967296", "4294967297", "4294967551", "4294967552",
